@@ -126,6 +126,21 @@ Section CascadeGeneral.
   Qed.
 End CascadeGeneral.
 
+(* compute_wigner_angles (axis-angle alignment): with W the Wigner rotation matrix it slices, the code's
+   alpha = atan2(W_zy, W_zx), beta = acos(W_zz), gamma = atan2(W_yz, -W_xz) (REGENERATED trees over the entries
+   m_ij of the rotation block) are Z-Y-Z Euler angles of the INVERSE rotation, in the code's own matrices:
+   RotationZ(alpha) . RotationY(beta) . RotationZ(gamma) = W^T, for every proper rotation with |W_zz| < 1
+   (beta not 0 or pi, where alpha and gamma are separately defined).  Exchanging alpha and gamma, or the
+   arguments of an atan2, breaks this. *)
+Theorem C04_wigner_euler_angles : forall M : M3, proper M -> -1 < a33 M < 1 ->
+  (wdR (envM M) wigner_alpha /\ wdR (envM M) wigner_beta /\ wdR (envM M) wigner_gamma) /\
+  (wAlpha M = atan2 (a32 M) (a31 M) /\ wBeta M = acos (a33 M) /\ wGamma M = atan2 (a23 M) (- a13 M)) /\
+  mmul (Rz (wAlpha M)) (mmul (Ry (wBeta M)) (Rz (wGamma M))) = transpose (emb4 M).
+Proof. exact wigner_euler_full. Qed.
+
+Example C04_wigner_euler_satisfiable : proper quarter_x /\ -1 < a33 quarter_x < 1.
+Proof. exact wigner_euler_example. Qed.
+
 (* ---- non-vacuity ---- *)
 (* a proper rotation that is NOT about z, with p and g.p off the z axis *)
 Example C04_general_rotation_satisfiable :
@@ -143,3 +158,5 @@ Print Assumptions C04_group_elements_are_regenerated.
 Print Assumptions C04_cascade_frames_instance.
 Print Assumptions C04_cascade_invariant_general_rotation.
 Print Assumptions C04_general_rotation_satisfiable.
+Print Assumptions C04_wigner_euler_angles.
+Print Assumptions C04_wigner_euler_satisfiable.
